@@ -508,5 +508,6 @@ def run(run):
 def replay(w):
     if w.get('gensrc'):
         return check_generator_source({'tail': w['tail']})['viol']
-    out = check_scenario({'shape': w['shape'], 'tail': w['tail'], 'deep': True})
+    # (the GC-schedule sweep is only re-run for witnesses it produced: it dominates the cost of a scenario)
+    out = check_scenario({'shape': w['shape'], 'tail': w['tail'], 'deep': w.get('kind') in ('gc-during-retry', 'castfault')})
     return out['viol']
